@@ -73,7 +73,7 @@ def evaluate_strands(case):
             fast = case["fast"] and c04.fast_ok(rows, k, start)
             table = case["table"] if (i + start) % 2 == 0 else None
             ccase = {"graph": {"k": k, "rows": rows, "start": start}, "bits": bits, "fast": fast, "table": table,
-                     "vt": 0}
+                     "vt": 0, "after_failure": (i + start) % 3 == 0, "verbose": (i + start) % 7 == 0}
             strand, _ = coding.run_encode(ccase)
             if isinstance(strand, Raised) or strand == "BUDGET":
                 labels.append("encode_failed")  # totality is C04's statement
